@@ -141,3 +141,44 @@ def rule_detect_mode_table(ctx, rep):
         got = _enum_name(w.call(f, [b.ins(x) for x in seq]))
         rep.check(got == want, rule, " ; ".join(seq), where, got, want)
     rep.check(_enum_name(w.call(f, [])) == "ANY", rule, "empty list", where, _enum_name(w.call(f, [])), "ANY")
+
+
+def rule_config_version(ctx, rep):
+    rule = "T-VERSION(config)"
+    rep.rule(rule, "a contract loaded through a group configuration keeps the version its source declares (#pragma version, 1 when absent), its mode "
+                   "and its costs, whatever the configuration's own `version` entry says")
+    w = ctx.world
+    GC = "tealer.utils.command_line.group_config"
+    COMMON = "tealer.utils.command_line.common"
+    w.module("tealer.teal.parse_functions").values["_apply_transaction_context_analysis"] = ("builtin", "noop")
+    from_yaml = w.getattr(w.cls(GC, "GroupConfig"), "from_yaml")
+    init = w.func(COMMON, "init_tealer_from_config")
+    where = f"{ctx.path(COMMON)}:{init.node.lineno}"
+    srcs = {"v2.teal": "#pragma version 2\nbyte \"a\"\nsha256\npop\nint 1\nreturn\n", "v6.teal": "#pragma version 6\nint 0\nbyte \"k\"\napp_global_get\npop\nint 1\nreturn\n",
+            "nov.teal": "int 1\nint 1\n==\n"}
+    want = {"A": (2, "ANY"), "B": (6, "STATEFUL"), "C": (1, "ANY")}
+    for cfg_version in (1, 8):
+        w.files = dict(srcs)
+        doc = {"name": "g", "contracts": [
+            {"name": "A", "file_path": "v2.teal", "type": "LogicSig", "version": cfg_version, "subroutines": [], "functions": [{"name": "main", "dispatch_path": ["B0"]}]},
+            {"name": "B", "file_path": "v6.teal", "type": "ApprovalProgram", "version": cfg_version, "subroutines": [], "functions": [{"name": "main", "dispatch_path": ["B0"]}]},
+            {"name": "C", "file_path": "nov.teal", "type": "LogicSig", "version": cfg_version, "subroutines": [], "functions": [{"name": "main", "dispatch_path": ["B0"]}]}],
+            "groups": [{"operation": "op", "transactions": [{"txn_id": "T0", "txn_type": "pay", "logic_sig": {"contract": "A", "function": "main"}},
+                                                             {"txn_id": "T1", "txn_type": "appl", "application": {"contract": "B", "function": "main"}},
+                                                             {"txn_id": "T2", "txn_type": "pay", "logic_sig": {"contract": "C", "function": "main"}}]}]}
+        try:
+            tl = w.call(init, w.call(from_yaml, doc))
+            got = {}
+            costs = {}
+            for name, c in w.getattr(tl, "contracts").items():
+                got[str(name).upper()[:1] if len(str(name)) == 1 else str(name)] = (w.getattr(c, "version"), _enum_name(w.getattr(c, "mode")))
+                costs[str(name)] = [w.getattr(b, "cost") for b in w.getattr(c, "bbs")]
+        except PyRaise as e:
+            got, costs = f"RAISES {e.exc} {e.where}", None
+        got_n = {k.upper(): v for k, v in got.items()} if isinstance(got, dict) else got
+        rep.check(got_n == want, rule, f"declared versions and modes with `version: {cfg_version}` in the configuration", where, got_n, want,
+                  why="the version of a contract follows the configuration file instead of the program")
+        if isinstance(costs, dict):
+            ca = next((v for k, v in costs.items() if k.upper() == "A"), None)
+            # sha256 costs 35 from version 2 on (7 in version 1): block cost 1 (byte) + 35 + 1 (pop) + 1 (int) + 1 (return) ; the pragma line costs nothing
+            rep.check(ca == [39], rule, f"block cost of the version-2 contract with `version: {cfg_version}` in the configuration", where, ca, [39])
